@@ -161,6 +161,9 @@ pub fn cfgs_c03() -> Vec<SrvCfg> {
         Act::Announce { src: 1, ih: 0, port: 7777, implied: None, tok: Tok::Fresh },
         Act::Announce { src: 2, ih: 0, port: 7777, implied: None, tok: Tok::Fresh },
         Act::Announce { src: 2, ih: 0, port: 0, implied: Some(1), tok: Tok::Fresh },
+        // BEP5: "present and non-zero" - other implementations send values other than 1
+        Act::Announce { src: 1, ih: 0, port: 7780, implied: Some(2), tok: Tok::Fresh },
+        Act::Announce { src: 2, ih: 0, port: 7781, implied: Some(255), tok: Tok::Fresh },
         Act::AnnounceSigned { src: 0, ih: 0, key: 0, dt: 0, sig_ok: true, tok: Tok::Fresh },
         Act::AnnounceSigned { src: 0, ih: 0, key: 0, dt: 2_000, sig_ok: true, tok: Tok::Fresh },
         Act::AnnounceSigned { src: 2, ih: 0, key: 0, dt: -3_000, sig_ok: true, tok: Tok::Fresh },
